@@ -150,7 +150,10 @@ func c18Run(t *testing.T, s Scenario, src verifsim.DecisionSource, keep bool) *R
 					if err != nil {
 						return
 					}
+					// back under the controller before anything observable happens
+					verifsim.Yield("harness/hangup-accepted")
 					c.Close()
+					verifsim.Yield("harness/hangup-closed")
 				}
 			})
 			verifsim.Yield("harness/waitlisten")
